@@ -102,6 +102,9 @@ class C05Stop(Monitor):
                     )
         if kind == "run":
             self.run_consults.append(verdict)
+            act = [d for d in self.all_demes(tree) if d.is_active]
+            if act and all(d._hibernating for d in act) and any(not d.is_active for d in self.all_demes(tree)):
+                self.cov("gsc_consulted_while_only_sleeping_demes_are_active")
         if self.T is None:
             if verdict:
                 self.T = {"gsc_index": ctx.n_gsc, "eval": len(ctx.log), "kind": kind, "deme": deme.id if deme is not None else None, "step": ctx.step}
